@@ -69,7 +69,7 @@ MIN_EVENTS = {
 COUNTS = {
     'dense': (60, 600), 'dense_general': (80, 900), 'einsum': (50, 500), 'conv': (260, 4500), 'conv_local': (60, 900),
     'conv_transpose': (150, 2400), 'embed': (50, 500), 'embed_int': (30, 300), 'pool': (120, 1500), 'norm': (220, 3600), 'norm_highrank': (40, 400), 'batchnorm': (70, 1200),
-    'dropout': (40, 300), 'lora': (12, 100),
+    'dropout': (40, 300), 'lora': (30, 200),
 }
 
 
@@ -368,7 +368,7 @@ def run_einsum(ctx, c, npr):
 
 def gen_lora(rng):
   return dict(batch=batch_shape(rng), cin=rng.randint(1, 5), rank=rng.randint(1, 3), cout=rng.randint(1, 5),
-              kind=rng.choice(['plain', 'base', 'lora_linear']))
+              kind=rng.choice(['plain', 'base', 'lora_linear']), low_dtype=rng.choice([None, None, 'bfloat16', 'float16']))
 
 
 def run_lora(ctx, c, npr):
@@ -389,6 +389,17 @@ def run_lora(ctx, c, npr):
       base = nnx.Linear(c['cin'], c['cout'], kernel_init=ci, bias_init=ci, rngs=rngs0())
       base.kernel.value, base.bias.value = J(K), J(b)
       want = want + x @ K + b
+    if base is not None and c['low_dtype']:
+      # the LoRA branch computes in a narrow dtype; with lora_b = 0 (its initial value) the wrapper returns exactly what the float32
+      # base module returns for x
+      m = nnx.LoRA(c['cin'], c['rank'], c['cout'], base_module=base, dtype=jdt(c['low_dtype']), a_initializer=ci, b_initializer=ci, rngs=rngs0())
+      m.lora_a.value, m.lora_b.value = J(A), J(np.zeros_like(Bm))
+      ctx.op('nnx.LoRA(base_module, dtype)')
+      x = (x + npr.uniform(-0.01, 0.01, size=x.shape)).astype(np.float32)   # not representable in the narrow dtype
+      got = m(J(x))
+      close(ctx, 'lora.base_module_gets_downcast_input', got, x.astype(np.float64) @ K + b)
+      ctx.check(bool(np.array_equal(L().f64(got), L().f64(base(J(x))))), 'lora.base_module_gets_downcast_input', lambda: dict(dtype=c['low_dtype']))
+      return
     m = lora = nnx.LoRA(c['cin'], c['rank'], c['cout'], base_module=base, a_initializer=ci, b_initializer=ci, rngs=rngs0())
   ctx.op('nnx.' + type(m).__name__)
   ctx.check(tuple(lora.lora_a.value.shape) == A.shape and tuple(lora.lora_b.value.shape) == Bm.shape, 'lora.param_shape', None)
